@@ -189,6 +189,20 @@ func c10Ops() []c10Op {
 			}
 			return strings.Join(ids, ",")
 		}},
+		{"lint-shared", func(s string) string {
+			// a Linter is documented as safe for concurrent use and reusable: while the goroutines run they all share
+			// one; the sequential table is computed by a fresh one per input (the call run alone)
+			l := linter.New(AllRules()...)
+			if c10Shared.Load() {
+				l = c10SharedLinter()
+			}
+			res := l.LintString(s, "f.sql")
+			var ids []string
+			for _, v := range res.Violations {
+				ids = append(ids, fmt.Sprintf("%s@%d:%d", v.Rule, v.Location.Line, v.Location.Column))
+			}
+			return strings.Join(ids, ",")
+		}},
 		{"span", func(s string) string {
 			// per-caller node: the span registry is shared library state
 			n := &ast.Identifier{Name: s}
@@ -228,6 +242,15 @@ func c10Ops() []c10Op {
 			return d
 		}},
 	}
+}
+
+var c10Shared atomic.Bool
+var c10SharedOnce sync.Once
+var c10SharedL *linter.Linter
+
+func c10SharedLinter() *linter.Linter {
+	c10SharedOnce.Do(func() { c10SharedL = linter.New(AllRules()...) })
+	return c10SharedL
 }
 
 func c10Inputs(seed int64) []string {
@@ -274,6 +297,8 @@ func c10Mix(a *ChildArgs) {
 		}
 	}
 	a.Rec.Count("table_entries", int64(len(table)))
+	c10Shared.Store(true)
+	defer c10Shared.Store(false)
 	var clock int64
 	type span struct {
 		op         int
@@ -344,6 +369,18 @@ func c10Mix(a *ChildArgs) {
 func c10Metrics(a *ChildArgs) {
 	metrics.Enable()
 	inputs := c10Inputs(a.Seed + int64(a.Shard))
+	// inputs that fail with many distinct error texts (a different position, character or lexeme each)
+	var manyBad []string
+	for k := 0; k < 900; k++ {
+		switch k % 3 {
+		case 0:
+			manyBad = append(manyBad, "SELECT a,"+strings.Repeat(" ", k/3)+"'never closed")
+		case 1:
+			manyBad = append(manyBad, strings.Repeat("\n", k/3)+"SELECT \"q"+fmt.Sprint(k))
+		default:
+			manyBad = append(manyBad, "SELECT a FROM t WHERE b = 1"+strings.Repeat(" ", k/3)+"\x01")
+		}
+	}
 	// exact totals
 	for round := 0; round < 20; round++ {
 		metrics.Reset()
@@ -354,10 +391,14 @@ func c10Metrics(a *ChildArgs) {
 		type job struct{ in string }
 		var jobs [][]string
 		r := rand.New(rand.NewSource(a.Seed*31 + int64(round)))
+		perG, pool := 40, inputs
+		if round%5 == 4 {
+			perG, pool = 400, append(append([]string{}, inputs[:8]...), manyBad...) // more distinct error texts than any breakdown table is likely to keep
+		}
 		for g := 0; g < ng; g++ {
 			var js []string
-			for k := 0; k < 40; k++ {
-				in := inputs[r.Intn(len(inputs))]
+			for k := 0; k < perG; k++ {
+				in := pool[r.Intn(len(pool))]
 				js = append(js, in)
 				wantOps++
 				wantBytes += int64(len(in))
@@ -398,7 +439,7 @@ func c10Metrics(a *ChildArgs) {
 		check := func(name string, got, want int64) {
 			if got != want {
 				a.Rec.Viol("C10/metrics/"+name, "when the goroutines have finished, the metrics totals equal the true values",
-					fmt.Sprintf("%s = %d, true value %d (%d goroutines x 40 tokenizations)", name, got, want, ng), map[string]interface{}{"goroutines": ng, "round": round})
+					fmt.Sprintf("%s = %d, true value %d (%d goroutines x %d tokenizations)", name, got, want, ng, perG), map[string]interface{}{"goroutines": ng, "round": round})
 			}
 		}
 		check("operations", st.TokenizeOperations, wantOps)
